@@ -159,7 +159,10 @@ def fam_loops():
 
 
 def fam_scoping():
-    sites = ["top", "if", "for", "while", "lambda", "catch", "try", "forlet", "else", "and", "switch", "switch2", "switchbind", "switchlist", "switchfail"]
+    sites = ["top", "if", "for", "while", "lambda", "catch", "try", "forlet", "else", "and", "switch", "switch2", "switchbind", "switchlist", "switchfail",
+             # the construct itself binds v (a parameter - plain, defaulted, splat -, the loop variable, the catch variable): the action runs in
+             # that very scope, so declaring v again is refused there and assigning v changes the construct's variable
+             "lambdaparam", "lambdadefault", "lambdasplat", "forvar", "catchvar"]
     actions = [("decl", "v", I(5)), ("set", "v", I(6)), P(V("v")), seq(("decl", "v", I(5)), ("set", "v", I(6)), P(V("v")))]
 
     def at(site, act):
@@ -177,6 +180,16 @@ def fam_scoping():
             return seq(("decl", "n", I(0)), ("while", ("bin", "<", V("n"), I(2)), seq(("opset", "n", "+", I(1)), act)))
         if site == "lambda":
             return ("call", ("lambda", [], act), [])
+        if site == "lambdaparam":
+            return ("call", ("lambda", [("p", "v")], act), [I(7)])
+        if site == "lambdadefault":
+            return ("call", ("lambda", [("pd", "v", I(3))], act), [])
+        if site == "lambdasplat":
+            return ("call", ("lambda", [("ps", "v")], act), [I(7)])
+        if site == "forvar":
+            return ("for", [("each", "v", ("list", [I(1), I(2)]))], ("do", act))
+        if site == "catchvar":
+            return ("try", ("throw", I(1)), "v", act)
         if site == "catch":
             return ("try", ("throw", I(1)), "e", act)
         if site == "try":
